@@ -203,3 +203,50 @@ Point = collections.namedtuple('Point', 'x y')
 
 def a_function(x):
     return x
+
+
+class ReduceNoArgs:
+    """__reduce__ -> (cls, (), state): pickle calls cls() (so __init__ runs) and then restores the state"""
+
+    def __init__(self):
+        self.made_by_init = 'yes'
+        self.extra = None
+
+    def __reduce__(self):
+        return (ReduceNoArgs, (), {'extra': self.extra})
+
+
+class ReduceNoArgsNoState:
+    def __init__(self):
+        self.made_by_init = 'yes'
+
+    def __reduce__(self):
+        return (ReduceNoArgsNoState, ())
+
+
+class DictItemsOnly:
+    """not a dict: dictitems are re-applied through __setitem__ only"""
+
+    def __init__(self):
+        self.store = []
+
+    def __setitem__(self, k, v):
+        self.store.append((k, v))
+
+    def __reduce__(self):
+        return (DictItemsOnly, (), None, None, iter(list(self.store)))
+
+
+class SetItemDict(dict):
+    """dict subclass whose __setitem__ keeps a reverse index"""
+
+    def __init__(self):
+        dict.__init__(self)
+        self.reverse = {}
+
+    def __setitem__(self, k, v):
+        dict.__setitem__(self, k, v)
+        self.reverse[str(v)] = k
+
+    def __reduce__(self):
+        return (SetItemDict, (), None, None, iter(list(self.items())))
